@@ -197,6 +197,28 @@ def run(F, rep):
         rep.ob("C03-NAME", "plain-vs-delta decision is `field count differs from the previous name` on both sides", okw and okr,
                detail="writer tests %s; reader tests %s" % ([x for x in dw if "len" in x][:3], [x for x in dr if "len" in x][:3]), key="C03-NAME | plain vs delta")
 
+    # field splitting: both sides cut names at every single space character and nowhere else
+    ss = F.funcs.get(COL + "split_string")
+    dnf = F.funcs.get(COL + "deserialize_contig_names")
+    if rep.floor("C03-NAME", sum(1 for x in (ss, dnf) if x), 2, "split_string and deserialize_contig_names"):
+        exss = Exprs(ss)
+        wsplit = [(t["callee"], [exss.operand(a) for a in t["args"][1:]]) for _, t in ss.calls() if not t.get("indirect") and re.search(r"::(r?split\w*|lines|chars|bytes)$", t["callee"])]
+        okw = len(wsplit) == 1 and wsplit[0][0].endswith("core::str::<impl str>::split") and wsplit[0][1] == [("const", 32)]
+        rsplit = [(t["callee"], t) for _, t in dnf.calls() if not t.get("indirect") and re.search(r"::(r?split\w*)$", t["callee"]) and "decode_split" not in t["callee"]]
+        okr = False
+        if len(rsplit) == 1 and rsplit[0][0].endswith("slice::<impl [T]>::split"):
+            for c in F.closures_of(dnf.key):
+                exc2 = Exprs(c)
+                for b in c.blocks:
+                    for s in b["stmts"]:
+                        if s["k"] == "assign" and s["pl"]["l"] == 0 and not s["pl"]["p"]:
+                            v = exc2.rvalue(s["rv"])
+                            if isinstance(v, tuple) and v[0] == "bin" and v[1] == "Eq" and ("const", 32) in (v[2], v[3]):
+                                okr = True
+        rep.ob("C03-NAME", "names are cut into fields at every single space on both sides (so empty fields and tabs survive)", okw and okr,
+               detail="writer: %s; reader: %s" % ([(c.rsplit("::", 1)[-1], [fmt(a) for a in args]) for c, args in wsplit], [c.rsplit("::", 1)[-1] for c, _ in rsplit]),
+               site="%s:%d" % (ss.file, ss.line_lo), key="C03-NAME | field split")
+
     # ------------------------------------------------------------ RUN: every matching position is counted exactly once
     if enc:
         exe2 = Exprs(enc)
